@@ -201,9 +201,24 @@ let run_sh toks =
   | Some st -> "state=" ^ (let v = String.concat "," (List.map (show_view st) qs) in if v = "" then "-" else v)
   | None -> "state=UNPARSED"
 
+(* printer n=<N> arrival=<i>,<i>,..   -> what log_loop prints when the groups (payload = their index) arrive in that order:
+   order=ok | order=<pos>:<got>:<want>   printed=<count> *)
+let run_printer toks =
+  let get k = try List.assoc k toks with Not_found -> "" in
+  let n = ios (get "n") in
+  let arrival = List.map ios (list_field ',' (get "arrival")) in
+  let out = log_loop (List.map (fun i -> (nat_of_int i, i)) arrival) [] O [] in
+  let rec cmp pos got want = match got, want with
+    | [], [] -> "ok"
+    | g :: gr, w :: wr -> if g = w then cmp (pos + 1) gr wr else Printf.sprintf "%d:%d:%d" pos g w
+    | g :: _, [] -> Printf.sprintf "%d:%d:-1" pos g
+    | [], w :: _ -> Printf.sprintf "%d:-1:%d" pos w in
+  Printf.sprintf "order=%s printed=%d" (cmp 0 out (List.init n (fun i -> i))) (List.length out)
+
 let () = iter_lines (fun line ->
   match split_ws line with
   | "run" :: toks -> run_case (List.map kv toks)
+  | "printer" :: toks -> run_printer (List.map kv toks)
   | "sh" :: toks -> run_sh (List.map kv toks)
   | ["quote"; h] -> hex_of_bytes (quote (bytes_of_hex h))
   | _ -> "EXN malformed line")
